@@ -112,6 +112,33 @@ class Engine:
                 self.assumptions.append(i >= lo)
         return Q(S.Lin.var(name, z3.ToReal(self.vars[name])))
 
+    def int(self, name, lo=None, hi=None):
+        """symbolic integer over Z"""
+        if self.concrete is not None:
+            return int(self.concrete[name])
+        v = self.vars.get(name)
+        if v is None:
+            v = self.vars[name] = z3.Int(name)
+            self.kinds[name] = "int"
+            if lo is not None:
+                self.assumptions.append(v >= lo)
+            if hi is not None:
+                self.assumptions.append(v <= hi)
+        return S.SymInt(v, name)
+
+    def pick_int(self, z):
+        if self.guide is not None:
+            return int(self.guide(z))
+        s = self._get_solver()
+        # deterministic choice (re-executed prefixes must meet the same conditions): first feasible of 0, 1, -1, 2, -2, ...
+        for k in range(0, 65):
+            for c in ((k,) if k == 0 else (k, -k)):
+                if s.check(z == c) == z3.sat:
+                    return c
+        if s.check() != z3.sat:
+            raise Infeasible()
+        return s.model().eval(z, model_completion=True).as_long()
+
     def assume(self, cond, note=None):
         if self.concrete is not None:
             return
@@ -250,6 +277,7 @@ class Engine:
         """run fn() once per feasible path; yields (path_index, result)"""
         S.HOOKS.branch = self.branch
         S.HOOKS.decide_static = self.decide_static
+        S.HOOKS.pick_int = self.pick_int
         stack = [[]]
         n = 0
         while stack:
@@ -272,6 +300,7 @@ class Engine:
         """single concolic run: every fork follows `model`"""
         S.HOOKS.branch = self.branch
         S.HOOKS.decide_static = self.decide_static
+        S.HOOKS.pick_int = self.pick_int
         self.guide = model
         self._prefix = []
         self._alternatives = []
